@@ -718,3 +718,123 @@ pub fn step_emi(sim: &mut Sim, ctx: &mut Ctx) -> Option<Tx> {
         }
     }
 }
+
+/// Directed drill: drive one bank into the killed state (a single borrower owes everything the
+/// lenders deposited, its collateral becomes worthless, the insurance vault is empty), then let the
+/// administrators try to reconfigure it.  Random continuation follows.
+pub fn drill_kill_bank(sim: &mut Sim, ctx: &mut Ctx) {
+    if ctx.world.users.len() < 2 {
+        return;
+    }
+    let gi = 0usize;
+    let g = ctx.world.groups[gi].clone();
+    // collateral bank X (counts as collateral) and debt bank Y
+    let mut x = None;
+    let mut y = None;
+    for b in &g.banks {
+        let Some(bank) = model::bank_of(&sim.store, &b.keys.bank) else { continue };
+        let ai: f64 = I80F48::from_le_bytes(bank.config.asset_weight_init.value).to_num();
+        if ai > 0.2 && x.is_none() && b.oracle != crate::world::OracleKind::Fixed {
+            x = Some(b.clone());
+        } else if y.is_none() && bank.config.risk_tier == RiskTier::Collateral {
+            y = Some(b.clone());
+        }
+    }
+    let (Some(x), Some(y)) = (x, y) else { return };
+    let lender = ctx.world.users[0].clone();
+    let borrower = ctx.world.users[1].clone();
+    let (Some(l_acc), Some(b_acc)) = (
+        lender.maccounts.iter().find(|(g2, _)| *g2 == gi).map(|(_, m)| *m),
+        borrower.maccounts.iter().find(|(g2, _)| *g2 == gi).map(|(_, m)| *m),
+    ) else {
+        return;
+    };
+    let (Some(l_ta), Some(b_ta_x), Some(b_ta_y)) = (
+        lender.tokens.get(&y.keys.mint).cloned(),
+        borrower.tokens.get(&x.keys.mint).cloned(),
+        borrower.tokens.get(&y.keys.mint).cloned(),
+    ) else {
+        return;
+    };
+    sim.stats.fault("drill_kill_bank");
+    let d = (token_balance(&sim.store, &l_ta) / 1000).clamp(10, 1_000_000);
+    sim.apply(Event::Tx(Tx::one("user", ix::deposit(&y.keys, l_acc, lender.authority, l_ta, d, None))));
+    let c = token_balance(&sim.store, &b_ta_x) / 2;
+    sim.apply(Event::Tx(Tx::one("user", ix::deposit(&x.keys, b_acc, borrower.authority, b_ta_x, c.max(1), None))));
+    let vault = token_balance(&sim.store, &y.keys.liquidity_vault);
+    let rm = crate::world::risk_metas(&sim.store, &b_acc, Some(y.keys.bank), None);
+    let out = sim.apply(Event::Tx(Tx::one("user", ix::borrow(&y.keys, b_acc, borrower.authority, b_ta_y, vault, rm))));
+    if !out.map(|o| o.ok()).unwrap_or(false) {
+        return;
+    }
+    // the collateral becomes worthless
+    let now = sim.clock.unix_timestamp;
+    if let Some(info) = ctx.world.bank_info_mut(&x.keys.bank) {
+        info.price_micro = 1;
+        let ev = match info.oracle {
+            crate::world::OracleKind::Pyth => Event::SetAccount {
+                key: info.oracle_key,
+                account: Some(crate::fixtures::pyth_account(info.feed_id, &crate::world::pyth_from_micro(1, info.expo.max(-8), 0, 0, now))),
+                why: "oracle_jump",
+            },
+            _ => Event::SetAccount {
+                key: info.oracle_key,
+                account: Some(crate::fixtures::swb_account(&crate::world::swb_from_micro(1, 0, now))),
+                why: "oracle_jump",
+            },
+        };
+        sim.apply(ev);
+    }
+    sim.apply(Event::Advance { dt: 5, dslot: 10, depoch: 0 });
+    let mut f = Vec::new();
+    for e in act_oracle_publish(sim, ctx, &mut f) {
+        // keep the crashed collateral price: skip re-publishing X
+        if let Event::SetAccount { key, .. } = &e {
+            if *key == x.oracle_key {
+                continue;
+            }
+        }
+        sim.apply(e);
+    }
+    let now = sim.clock.unix_timestamp;
+    if let Some(info) = ctx.world.bank_info(&x.keys.bank).cloned() {
+        let ev = match info.oracle {
+            crate::world::OracleKind::Pyth => Event::SetAccount {
+                key: info.oracle_key,
+                account: Some(crate::fixtures::pyth_account(info.feed_id, &crate::world::pyth_from_micro(1, info.expo.max(-8), 0, 0, now))),
+                why: "oracle_jump",
+            },
+            _ => Event::SetAccount {
+                key: info.oracle_key,
+                account: Some(crate::fixtures::swb_account(&crate::world::swb_from_micro(1, 0, now))),
+                why: "oracle_jump",
+            },
+        };
+        sim.apply(ev);
+    }
+    let rm = crate::world::risk_metas(&sim.store, &b_acc, None, None);
+    sim.apply(Event::Tx(Tx::one("bankruptcy", ix::handle_bankruptcy(&y.keys, g.admins.risk, b_acc, rm))));
+    if sim.violated() && sim.stop_on_violation {
+        return;
+    }
+    // administrators now try to touch the (hopefully killed) bank
+    let killed = model::bank_of(&sim.store, &y.keys.bank)
+        .map(|b| b.config.operational_state == BankOperationalState::KilledByBankruptcy)
+        .unwrap_or(false);
+    if killed {
+        sim.stats.fault("drill_bank_killed");
+    }
+    for st in [BankOperationalState::Operational, BankOperationalState::ReduceOnly, BankOperationalState::Paused] {
+        if !ctx.rng.chance(2, 3) {
+            continue;
+        }
+        let opt = BankConfigOpt {
+            operational_state: Some(st),
+            ..Default::default()
+        };
+        sim.apply(Event::Tx(Tx::one("group_admin", ix::configure_bank(g.key, g.admins.admin, y.keys.bank, opt))));
+        if sim.violated() && sim.stop_on_violation {
+            return;
+        }
+    }
+}
